@@ -120,7 +120,10 @@ RunOps(s, pr, i, pc, scopes) ==
                  LET key == scopes[Len(scopes)]
                      outer == SubSeq(scopes, 1, Len(scopes) - 1)
                  IN RunOps(Bind(s, outer[Len(outer)], pr.mods[i].ops[key[2]].n, ObjVal(i, key[2])), pr, i, pc + 1, outer)
-            [] op.k \in {"def", "var"} -> RunOps(Bind(s, top, op.n, ObjVal(i, pc)), pr, i, pc + 1, scopes)
+            [] op.k = "def" \/ (op.k = "var" /\ "ann" \notin DOMAIN op) -> RunOps(Bind(s, top, op.n, ObjVal(i, pc)), pr, i, pc + 1, scopes)
+            [] op.k = "var" /\ "ann" \in DOMAIN op -> RunOps(s, pr, i, pc + 1, scopes)      \* annotation without value binds nothing
+            [] op.k = "str" -> RunOps(s, pr, i, pc + 1, scopes)
+            [] op.k = "ivar" -> RunOps(Bind(s, top, "__init__", ObjVal(i, pc)), pr, i, pc + 1, scopes)
             [] op.k = "alias" ->
                  LET v == EvalDotted(s, scopes, op.v)
                  IN RunOps(IF v.t = "none" THEN s ELSE Bind(s, top, op.n, v), pr, i, pc + 1, scopes)
